@@ -13,13 +13,13 @@ RULE = ("S->C: TextForms_Gen enumerates the case analysis of TextForms -- byte s
         "url, JSON, and 39 malformed or non-canonical texts judged for every reader -- the harness calls the real functions and the "
         "runner compares field by field. C->S: random values and random single / double edits of well-formed texts go through the real "
         "API (utils.Crc16, Crc16String, Crc32String, MethodIdFromName, HumanFriendlyCoinsRepr; ton.BlockID.String, BlockIDExt.String / "
-        "MarshalTL / UnmarshalTL, ParseBlockID; ton.Bits256 Hex / Base64 / MarshalJSON / FromHex / FromBase64 / FromBase64URL / "
+        "MarshalTL / UnmarshalTL, ParseBlockID; every entry of the hand-written table code.Methods; ton.Bits256 Hex / Base64 / MarshalJSON / FromHex / FromBase64 / FromBase64URL / "
         "FromUnknownString / ParseHash / UnmarshalJSON / FromBytes) and every recorded call is accepted by TextForms_Trace only if the "
         "output is what the definition gives, every parse-back is the identity, texts the specification reads as a value are read as "
         "that value, and texts that denote nothing are refused; a panic is never accepted. distinct = distinct vectors + distinct events.")
 TRACE = ("TextForms_Trace", "trace/TextForms_Trace.cfg")
 FN = {"Crc": "Crc16/Crc32String/MethodIdFromName", "Coins": "HumanFriendlyCoinsRepr", "Blk": "BlockID.String", "BlkParse": "ParseBlockID",
-      "TlDec": "BlockIDExt.UnmarshalTL", "H256": "Bits256.forms", "FromBytes": "Bits256.FromBytes"}
+      "TlDec": "BlockIDExt.UnmarshalTL", "H256": "Bits256.forms", "FromBytes": "Bits256.FromBytes", "MethodTable": "code.Methods"}
 READER = {"hex": "FromHex", "b64": "FromBase64", "url": "FromBase64URL", "any": "FromUnknownString", "parsehash": "ParseHash",
           "json": "UnmarshalJSON", "json.std": "json.Unmarshal"}
 
@@ -211,12 +211,12 @@ def run(ck):
             if e["k"] == "Coins" and nt[0] == "coins:negative" and nt[1] == "other" and ok:
                 obs["HumanFriendlyCoinsRepr of a negative amount is not scaled to a unit"].add("%s -> %s" % (e["amount"], text(e["out"])))
             if not ok:
-                cls = str(nt[0]) if e["k"] in ("BlkParse", "H256Parse") else ("panic" if e.get("panic") else "random")
+                cls = str(nt[0]) if e["k"] in ("BlkParse", "H256Parse") else text(e["name"]) if e["k"] == "MethodTable" else ("panic" if e.get("panic") else "random")
                 ck.report("X05:%s:%s" % (fn_of(e), "panic" if e.get("panic") else cls),
                           "recorded call is not what TextForms requires (%s): %s%s" % (nt, json.dumps(e)[:900], ", text %r" % text(e["s"])[:120] if "s" in e else ""),
                           {"kind": "drive", "shard": i, "shards": shards, "seed": ck.seed, "tier": ck.tier, "index": j})
     ck.extra["events_by_class"] = dict(ncls)
-    need = ["Crc", "Coins", "Blk", "TlDec", "H256", "FromBytes", "BlkParse:ok:accepted", "BlkParse:bad:refused", "H256Parse:ok:accepted", "H256Parse:bad:refused"]
+    need = ["Crc", "Coins", "Blk", "TlDec", "H256", "FromBytes", "MethodTable", "BlkParse:ok:accepted", "BlkParse:bad:refused", "H256Parse:ok:accepted", "H256Parse:bad:refused"]
     if not ck.violations and any(ncls[k] == 0 for k in need):
         raise Infra("recorded traces lack classes: %s" % [k for k in need if ncls[k] == 0])
     ck.extra["observations"] = {k: sorted(v)[:12] for k, v in sorted(obs.items())}
@@ -260,6 +260,7 @@ def run(ck):
         lambda c: c.update(err="", v="00" * 32))
     mut("FromBytes of 31 bytes logged as accepted", lambda e: e["k"] == "FromBytes" and e["n"] != 32, lambda c: c.update(err=""))
     mut("panic logged", lambda e: e["k"] == "Coins", lambda c: c.update(panic="x"))
+    mut("one id of the method table altered", lambda e: e["k"] == "MethodTable", lambda c: c.update(id=str(int(c["id"]) + 1)))
     if cl:
         st = (ck.states, ck.transitions, ck.traces_ok, ck.evaluations)
         cverd, _ = xgrow.judge(ck, *TRACE, [c for _, c in cl], "canaries")
